@@ -28,11 +28,18 @@ CONFIGS = [
 IDENT_PAIRS = [('sax2', 'prog'), ('dom', 'progdom'), ('dom', 'domls'), ('domls', 'domls-filter'), ('sax2', 'sax2-dg'), ('dom', 'dom-wf'), ('sax2-wf', 'sax2-sg')]
 
 
-def expat_events(data, ns):
+def expat_events(data, ns, ents=()):
     """pyexpat's view in the projected common form (values only; namespaces off)"""
     ev = []
     p = pyexpat.ParserCreate()
     p.SetParamEntityParsing(pyexpat.XML_PARAM_ENTITY_PARSING_ALWAYS)
+    files = dict((k.split('/')[-1], v) for k, v in ents)
+
+    def ext(context, base, sysid, pubid):
+        sub = p.ExternalEntityParserCreate(context)
+        sub.Parse(files.get(sysid, b''), True)
+        return 1
+    p.ExternalEntityRefHandler = ext
     p.buffer_text = False
     p.ordered_attributes = False
 
@@ -85,6 +92,7 @@ class _PinCx:
         self.attdecls = {}
         self.notations = []
         self.unparsed = []
+        self.external = False
 
 
 def _se(q, attrs=(), uri=None):
@@ -173,13 +181,13 @@ def run(tier):
                     for an, d in decl.items():
                         g['atypes'][(en, an)] = d['type']
             dt = g['doc']['doctype']
-            if dt and not g.get('pinned') and not (cx.entity_order or cx.attdecl_order or cx.notations or cx.unparsed) and '[' not in g['text'].split('<' + g['doc']['root']['qname'])[0].split('<!DOCTYPE')[-1]:
+            if dt and not g.get('pinned') and not cx.external and not (cx.entity_order or cx.attdecl_order or cx.notations or cx.unparsed) and '[' not in g['text'].split('<' + g['doc']['root']['qname'])[0].split('<!DOCTYPE')[-1]:
                 cx.tags.add('doctype-no-subset')
             # second opinion on values
             g['expat_ok'] = None
             if cx.version == '1.0':
                 try:
-                    xe = expat_events(g['bytes'], False)
+                    xe = expat_events(g['bytes'], False, g.get('ents', ()))
                     me = [e for e in pc.project(g['expected'], ns=False, keep_dt=False)]
                     g['expat_ok'] = (xe == me)
                     if not g['expat_ok']:
@@ -197,7 +205,7 @@ def run(tier):
                 o['ns'] = 1 if cx.ns else 0
                 if name.endswith('-sg') and not cx.ns:
                     continue    # SG always processes namespaces
-                cases.append(core.Case('r%dd%d.%s' % (rd, i, name), 'parse', o, meta={'doc': i, 'cfg': name}).doc(g['bytes']))
+                cases.append(core.Case('r%dd%d.%s' % (rd, i, name), 'parse', o, ents=g.get('ents', ()), meta={'doc': i, 'cfg': name}).doc(g['bytes']))
         recs = core.run_cases(binary, cases, tag='c03')
         byd = collections.defaultdict(dict)
         for c in cases:
@@ -285,7 +293,7 @@ def run(tier):
     ck.assumptions = ['pyexpat (XML 1.0 4th edition) is used only to discard documents on which the model is uncertain',
                       'ignorable whitespace and characters are merged for comparison with the model (validation off)',
                       'names drawn from the intersection of XML 1.0 4th and 5th edition name characters']
-    need = ['cdata', 'entity-ref', 'entity-in-attr', 'attr-default', 'charref', 'ns-shadow', 'enc-UTF-16LE', 'enc-ISO-8859-1', 'v1.1', 'pe-decl', 'attr-ws-literal']
+    need = ['external-subset', 'conditional-include', 'cdata', 'entity-ref', 'entity-in-attr', 'attr-default', 'charref', 'ns-shadow', 'enc-UTF-16LE', 'enc-ISO-8859-1', 'v1.1', 'pe-decl', 'attr-ws-literal']
     for t in need:
         if tagc[t] == 0:
             ck.inconclusive.append('lexical freedom never exercised: ' + t)
